@@ -108,7 +108,9 @@ def cancel_policy(which):
 
 
 def prove_connect(src_root, ex: Explorer):
-    outcomes = ['ok', 'OSError', 'TimeoutError', 'cancelled']
+    # failure kinds of the attempt: OS level, time-out, and any OTHER exception (e.g. OverflowError for a port outside 0..65535 that a peer
+    # announced, ValueError from the resolver): every one must leave the connection CLOSED and unregistered
+    outcomes = ['ok', 'OSError', 'TimeoutError', 'cancelled', 'OverflowError', 'ValueError']
 
     def path(ctx: Ctx):
         it = mk(src_root, ctx)
@@ -295,6 +297,58 @@ def prove_accepted_registered(src_root, ex: Explorer):
     ex.run(path, 'accepted-registered')
 
 
+def prove_shutdown_order(src_root, ex: Explorer):
+    """Network.disconnect(): the connection-creation tasks are cancelled BEFORE the first suspension - an attempt that is still running
+    while the connections are being closed would open a connection after the shutdown (CONNECTED after the registry was closed)."""
+    def path(ctx: Ctx):
+        it = mk(src_root, ctx)
+        order = []
+        it.hooks[f'{NET}:Network._cancel_all_tasks'] = lambda it2, f, a, k: order.append('cancel-tasks')
+        sc = Stub('server', disconnect=Recorder('disconnect', fn=lambda it2, a, k: order.append('server-closed'), is_async=True))
+        net = new(it, NET, 'Network', server_connection=sc, peer_connections=[], listening_connections=[None, None])
+        seen = []
+
+        def on_yield(it2, label):
+            if not seen:
+                seen.append(label)
+                ctx.prove('C10.shutdown.cancels-attempts-first', 'cancel-tasks' in order,
+                          f'Network.disconnect() suspends on {label} before the connection-creation tasks are cancelled')
+        it.aio.on_yield = on_yield
+        run(it, it.getattr(net, 'disconnect'))
+        if not seen:
+            ctx.prove('C10.shutdown.cancels-attempts-first', order[:1] == ['cancel-tasks'])
+        ctx.prove('C10.shutdown.closes-server', 'server-closed' in order)
+    ex.run(path, 'shutdown-order')
+
+    def direct(ctx: Ctx):
+        """_make_direct_connection: the connection object is in the registry before connect() is awaited (a CONNECTING connection is an
+        open attempt: it must be closed by a shutdown and removed on CLOSED)"""
+        it = mk(src_root, ctx)
+        registry = []
+        created = []
+        it.hooks[f'{CONN}:DataConnection.connect'] = lambda it2, f, a, k: (created.append(a[0]), A.SimpleAwaitable(it2.aio, 'connect', lambda it3: None))[1]
+        it.hooks[f'{NET}:Network._get_peer_address'] = lambda it2, f, a, k: A.SimpleAwaitable(it2.aio, 'addr', lambda it3: ('1.2.3.4', 5, 0), yields=False)
+        it.hooks[f'{NET}:Network.select_port'] = lambda it2, f, a, k: (5, False)
+        net = new(it, NET, 'Network', peer_connections=registry, _settings=Stub('settings'), _ip_overrides={})
+        seen = []
+
+        def on_yield(it2, label):
+            if label == 'connect' and not seen:
+                seen.append(label)
+                ctx.prove('C10.direct.registered-before-connect', bool(created) and any(x is created[0] for x in net.attrs['peer_connections']),
+                          'the outgoing connection is not registered while its connect() is in flight')
+                raise PathAbort()
+        it.aio.on_yield = on_yield
+        try:
+            run(it, it.getattr(net, '_make_direct_connection'), 7, 'bob', 'P', ip='1.2.3.4', port=5, obfuscate=False)
+            err = None
+        except PyRaise as pr:
+            err = repr(pr.exc)
+        if not seen:
+            ctx.fail('C10.direct.registered-before-connect', f'connect() was never awaited ({err})')
+    ex.run(direct, 'direct-registered')
+
+
 def prove_accepted_failures(src_root, ex: Explorer):
     """An accepted connection whose initialisation fails (undecodable first frame, read error, EOF, unexpected message) ends CLOSED - by
     the read contract or by an explicit disconnect - and only that connection is touched.  This is C02.on_peer_accepted.isolation[*];
@@ -336,7 +390,7 @@ def prove_registry(src_root, ex: Explorer):
 
 
 def items(src_root, tier):
-    return [('set_state', None), ('connect', None), ('disconnect', None), ('after', None), ('accept', None), ('registry', None), ('accepted', None), ('accepted-failures', None)]
+    return [('set_state', None), ('connect', None), ('disconnect', None), ('after', None), ('accept', None), ('registry', None), ('accepted', None), ('accepted-failures', None), ('shutdown', None)]
 
 
 def run_item(src_root, item, tier):
@@ -345,7 +399,7 @@ def run_item(src_root, item, tier):
     kind, arg = item
     try:
         {'set_state': prove_set_state, 'connect': prove_connect, 'disconnect': prove_disconnect, 'after': prove_after_closed,
-         'accept': prove_accept, 'registry': prove_registry, 'accepted': prove_accepted_registered, 'accepted-failures': prove_accepted_failures}[kind](src_root, ex)
+         'accept': prove_accept, 'registry': prove_registry, 'accepted': prove_accepted_registered, 'accepted-failures': prove_accepted_failures, 'shutdown': prove_shutdown_order}[kind](src_root, ex)
     except Unsupported as e:
         res.errors.append(f'{kind}: unsupported: {e}')
     collect(res, ex)
